@@ -283,6 +283,7 @@ type hist struct {
 	dist    hx.Counter
 	signers bool
 	cur     config // the settings in force (changed by setProp)
+	planPending bool // an upgrade plan has paused its non-approving voters; its second BeginBlock is due
 	spellRng *hx.Rng // decides the spelling (lower / upper-case bech32) of address strings
 }
 
@@ -430,6 +431,29 @@ func (x *hist) newBlockNs(dt int64) {
 	x.h++
 	x.t += dt
 	x.record(fmt.Sprintf("ONewBlock %d", dt), jop{Op: "newblock", Dt: dt}, "ROk", "")
+	if x.planPending {
+		x.upgradeFinish()
+	}
+}
+
+// upgradeFinish: the BeginBlock after the one that paused the non-approving voters: the real upgrade
+// BeginBlocker makes the plan current (InstateUpgrade, SkipHandler) and must not touch any validator
+func (x *hist) upgradeFinish() {
+	a := appOf(x.w)
+	bc, bwrite := x.blockCtx().CacheContext()
+	p := hx.Try(func() { upgrade.BeginBlocker(a.UpgradeKeeper, bc, abci.RequestBeginBlock{}) })
+	res := "ROk"
+	if p == "" {
+		bwrite()
+	} else {
+		res = "RPanic"
+		x.dead = true
+	}
+	x.planPending = false
+	if np, _ := a.UpgradeKeeper.GetNextPlan(x.blockCtx()); np != nil && p == "" {
+		x.planPending = true // still there: the code wants another round
+	}
+	x.record("OUpgrade", jop{Op: "upgrade", Err: p}, res, "")
 }
 
 // the zero time.Time of a fresh signing info is time.Unix(0, 0)
@@ -603,7 +627,9 @@ func (x *hist) upgradePause(vs []int64, r *hx.Rng) {
 		res = "RPanic"
 		x.dead = true
 	}
-	a.UpgradeKeeper.ClearNextPlan(ctx)
+	if p == "" {
+		x.planPending = true // the next BeginBlock carries on with the plan (second phase)
+	}
 	x.record("OUpPause "+zs(vs), jop{Op: "upgrade-pause", Vs: vs, Err: p}, res, "")
 }
 
@@ -761,10 +787,27 @@ func main() {
 	for _, t := range plan {
 		for _, st := range sysStarts {
 			x := newHist(0)
-			runSys(x, r, genID, st, t)
+			runSys(x, r, genID, st, t, false)
 			finish(x, sysName(st, t))
 		}
 	}
+	// the same stream with a genesis export + import after the block under test: every tuple in the thorough
+	// tier; in the quick tier every single and pair from every start status
+	all := os.Getenv("VERIF_TIER") == "thorough" || os.Getenv("VERIF_SYS") == "all"
+	nGen := 0
+	for i, t := range plan {
+		for j, st := range sysStarts {
+			_, _ = i, j
+			if !all && len(t) > 2 {
+				continue
+			}
+			x := newHist(0)
+			runSys(x, r, genID, st, t, true)
+			finish(x, strings.Replace(sysName(st, t), "sys:", "sysg:", 1))
+			nGen++
+		}
+	}
+	dist["systematic-with-genesis-import:run"] = nGen
 	tcs := thrCases()
 	nThr := len(tcs)
 	if !(os.Getenv("VERIF_TIER") == "thorough" || os.Getenv("VERIF_SYS") == "all") {
@@ -777,8 +820,9 @@ func main() {
 	}
 	for _, tc := range tcs {
 		x := newHist(0)
-		runThr(x, genID, tc)
-		finish(x, fmt.Sprintf("thr:mc%d:max%d:%s->%d:after%d", tc.mc0, tc.maxm0, propNames[tc.which], tc.val, tc.k))
+		gi := len(js)%4 == 0
+		runThr(x, genID, tc, gi)
+		finish(x, fmt.Sprintf("thr:mc%d:max%d:%s->%d:after%d%s", tc.mc0, tc.maxm0, propNames[tc.which], tc.val, tc.k, map[bool]string{true: ":genesis-import", false: ""}[gi]))
 	}
 	for _, bc := range bndCases() {
 		x := newHist(0)
@@ -790,9 +834,16 @@ func main() {
 	for _, lc := range lastCases() {
 		x := newHist(0)
 		x.spellRng = nil
-		runLast(x, genID, lc, r)
+		runLast(x, genID, lc, r, false)
 		finish(x, fmt.Sprintf("last:n%d:min%d:%s", lc.n, lc.minv, lc.kind))
 		nLast++
+		if lc.n >= 2 && (all || nLast%3 == 0) {
+			x = newHist(0)
+			x.spellRng = nil
+			runLast(x, genID, lc, r, true)
+			finish(x, fmt.Sprintf("last:n%d:min%d:%s:genesis-import", lc.n, lc.minv, lc.kind))
+			nLast++
+		}
 	}
 	dist["last-validators-stream:run"] = nLast
 	dist["threshold-stream:run"] = len(tcs)
@@ -865,6 +916,9 @@ func kindClass(k string) string {
 	}
 	if strings.HasPrefix(k, "sys:") {
 		return "systematic"
+	}
+	if strings.HasPrefix(k, "sysg:") {
+		return "systematic-with-genesis-import"
 	}
 	if strings.HasPrefix(k, "thr:") {
 		return "threshold-stream"
